@@ -200,6 +200,20 @@ pub(crate) fn encode_internal<W: Write, S: Borrow<Schema> + Debug>(
         Value::Bytes(bytes) => match *schema {
             Schema::Bytes | Schema::Uuid(UuidSchema::Bytes) => encode_bytes(bytes, writer),
             Schema::Fixed { .. } => write_all_bytes(writer, bytes.as_slice()),
+            // Validation accepts raw bytes for a decimal: they are its two's-complement form.
+            Schema::Decimal(DecimalSchema {
+                inner: InnerDecimalSchema::Bytes,
+                ..
+            }) => encode_bytes(bytes, writer),
+            Schema::Decimal(DecimalSchema {
+                inner: InnerDecimalSchema::Fixed(ref fixed),
+                ..
+            }) => {
+                if bytes.len() != fixed.size {
+                    return Err(Details::EncodeDecimalAsFixedError(bytes.len(), fixed.size).into());
+                }
+                write_all_bytes(writer, bytes.as_slice())
+            }
             _ => Err(Details::EncodeValueAsSchemaError {
                 value_kind: ValueKind::Bytes,
                 supported_schema: vec![SchemaKind::Bytes, SchemaKind::Fixed, SchemaKind::Uuid],
@@ -222,8 +236,32 @@ pub(crate) fn encode_internal<W: Write, S: Borrow<Schema> + Debug>(
             }
             .into()),
         },
+        // Validation accepts a fixed for a decimal: on a bytes decimal it needs the length prefix.
+        Value::Fixed(_, bytes)
+            if matches!(
+                schema,
+                Schema::Decimal(DecimalSchema {
+                    inner: InnerDecimalSchema::Bytes,
+                    ..
+                })
+            ) =>
+        {
+            encode_bytes(bytes, writer)
+        }
         Value::Fixed(_, bytes) => write_all_bytes(writer, bytes.as_slice()),
-        Value::Enum(i, _) => encode_int(*i as i32, writer),
+        Value::Enum(i, _) => match schema {
+            // Validation accepts an index outside the symbols when the enum has a default:
+            // write the default symbol, which is what the index stands for.
+            Schema::Enum(EnumSchema {
+                symbols,
+                default: Some(default),
+                ..
+            }) if *i as usize >= symbols.len() => match symbols.iter().position(|s| s == default) {
+                Some(index) => encode_int(index as i32, writer),
+                None => Err(Details::GetEnumSymbol(default.clone()).into()),
+            },
+            _ => encode_int(*i as i32, writer),
+        },
         Value::Union(idx, item) => {
             if let Schema::Union(ref inner) = *schema {
                 let inner_schema = inner
